@@ -36,7 +36,7 @@ def refusals(ctx, facts):
                       witness=dict(a_format=(1, 1, 1), b_format=(1, 2, 1)))
 
 
-def helper_clause(ctx, facts):
+def helper_clause(ctx, facts, RULE='C14.d'):
     """C14.d: the software reference (FixedPoint.add / sub / mult of helper.py).  The value stored into the result's raw encoding is extracted
     as a pure integer function of the operands' raw encodings and the format (sign-extension helper inlined), summarised symbolically and
     compared with exact arithmetic over every format of the grid and every pair of encodings."""
@@ -50,7 +50,7 @@ def helper_clause(ctx, facts):
     HELPER = 'py4hw/helper.py'
     c = facts.cls('FixedPoint', HELPER, required=False)
     if c is None:
-        ctx.error('C14.d', 'anchor class FixedPoint not found')
+        ctx.error(RULE, 'anchor class FixedPoint not found')
         return
     refs = dict(add=lambda a, b, f: (sgn(a, sum(f)) + sgn(b, sum(f))) & m(sum(f)),
                 sub=lambda a, b, f: (sgn(a, sum(f)) - sgn(b, sum(f))) & m(sum(f)),
@@ -59,7 +59,7 @@ def helper_clause(ctx, facts):
         meth = c.methods.get(mn)
         where = '%s:FixedPoint.%s' % (HELPER, mn)
         if meth is None or len(meth.args.args) < 2:
-            ctx.error('C14.d', 'anchor FixedPoint.%s not found' % mn)
+            ctx.error(RULE, 'anchor FixedPoint.%s not found' % mn)
             continue
         other = meth.args.args[1].arg
         res = None
@@ -92,7 +92,7 @@ def helper_clause(ctx, facts):
             if ret is None:
                 raise NotSummarisable('no value')
         except (NotSummarisable, SyntaxError, KeyError) as e:
-            ctx.ok('C14.d', 'FixedPoint.%s' % mn, 'the stored encoding is not extractable as a pure function of the operand encodings (%s): not decided' % str(e)[:80], grade='refused')
+            ctx.ok(RULE, 'FixedPoint.%s' % mn, 'the stored encoding is not extractable as a pure function of the operand encodings (%s): not decided' % str(e)[:80], grade='refused')
             continue
         bad = None
         n = 0
@@ -114,10 +114,10 @@ def helper_clause(ctx, facts):
             if bad:
                 break
         if bad:
-            ctx.violation('C14.d', 'FixedPoint.%s' % mn, 'the software reference FixedPoint.%s does not return the exact result reduced to the format (products: truncated towards minus infinity like the hardware block)' % mn,
+            ctx.violation(RULE, 'FixedPoint.%s' % mn, 'the software reference FixedPoint.%s does not return the exact result reduced to the format (products: truncated towards minus infinity like the hardware block)' % mn,
                           where, witness=bad)
         else:
-            ctx.ok('C14.d', 'FixedPoint.%s' % mn, '%d operand pairs over %d formats agree with exact arithmetic; summary: %s' % (n, len(FXP_FORMATS) + 2, show(ret)[:100]), grade='bounded')
+            ctx.ok(RULE, 'FixedPoint.%s' % mn, '%d operand pairs over %d formats agree with exact arithmetic; summary: %s' % (n, len(FXP_FORMATS) + 2, show(ret)[:100]), grade='bounded')
 
 
 def run(ctx, sm, facts):
